@@ -6,6 +6,7 @@ import ast
 from ..cfg import CFG
 from ..effects import EffectAnalysis
 from ..repo import calls_in, dotted, norm_src, walk_no_nested
+from ..match import Matcher, src as msrc
 from .common import kwarg, need_funcs
 from .C03 import partition_clause
 
@@ -28,16 +29,21 @@ def lockstep_clause(model, rep, funcs):
     f = funcs.get(MC + "subset")
     if f is not None:
         rep.instance("LOCK", f.loc())
-        subs = [n for n in walk_no_nested(f.node) if isinstance(n, ast.Subscript) and norm_src(n.slice) == "_spec"]
-        bases = sorted(norm_src(n.value) for n in subs)
-        flt = [c for c in calls_in(f) if isinstance(c.func, ast.Attribute) and c.func.attr == "filter" and c.args and norm_src(c.args[0]) == "_spec"]
-        have_pos = any(b in ("self.pos", "self._pos") for b in bases)
-        have_quat = any("quaternion" in b for b in bases)
-        have_feat = any("_features" in b or "features" in b for b in bases) and bool(flt)
+        M = Matcher(f)
+        b: dict = {}
+        ok, why = M.all_of(["$pos = self.pos[$sel]", "$quat = self.quaternion(canonical=False)[$sel]",
+                            "if _is_boolean_array($sel):\n    return self.__class__($pos, Rotation($quat), self._features.filter($sel))",
+                            "return self.__class__($pos, Rotation($quat), self._features[$sel])"], b)
+        if not ok:
+            b = {}
+            ok, why = M.all_of(["$pos = self._pos[$sel]", "$quat = self.quaternion(canonical=False)[$sel]",
+                                "if _is_boolean_array($sel):\n    return self.__class__($pos, Rotation($quat), self._features.filter($sel))",
+                                "return self.__class__($pos, Rotation($quat), self._features[$sel])"], b)
+        # every constructor call gets the selected positions and rotations
         ctor = [c for c in calls_in(f) if norm_src(c.func) == "self.__class__"]
-        ctor_ok = bool(ctor) and all([norm_src(a) for a in c.args[:2]] == ["pos", "Rotation(quat)"] for c in ctor)
+        ctor_ok = bool(ok) and len(ctor) == M.count("self.__class__($pos, Rotation($quat), ...)", b)
         rep.ob("LOCK", f.anchor, "subset applies one selector to positions, quaternions and features (index or boolean filter) and rebuilds from exactly those",
-               have_pos and have_quat and have_feat and ctor_ok, f"selected with _spec: {bases}; filter(_spec): {len(flt)}; ctor args ok: {ctor_ok}", node=f.node, fn=f,
+               bool(ok and ctor_ok), why or f"constructor calls built from the selected rows: {ctor_ok}", node=f.node, fn=f,
                clause="1 lock-step", stmt="def subset")
         # integer index guards
         raises = [n for n in walk_no_nested(f.node) if isinstance(n, ast.Raise)]
@@ -76,17 +82,12 @@ def lockstep_clause(model, rep, funcs):
     f = funcs.get(MC + "concat")
     if f is not None:
         rep.instance("LOCK", f.loc())
-        loops = [lp for lp in walk_no_nested(f.node) if isinstance(lp, ast.For)]
-        ok = False
-        if len(loops) == 1:
-            apps = [(dotted(c.func.value), norm_src(c.args[0])) for c in ast.walk(loops[0]) if isinstance(c, ast.Call) and isinstance(c.func, ast.Attribute)
-                    and c.func.attr == "append" and c.args]
-            v = norm_src(loops[0].target)
-            ok = sorted(apps) == sorted([("pos", f"{v}.pos"), ("quat", f"{v}.quaternion()"), ("features", f"{v}.features")])
-        s = norm_src(f.node)
-        ok = ok and "np.concatenate(pos, axis=0)" in s and "np.concatenate(quat, axis=0)" in s and "pl.concat(features, how=how)" in s
+        M = Matcher(f)
+        ok, why = M.all_of(["for $m in moles:\n    $pos.append($m.pos)\n    $quat.append($m.quaternion())\n    $feat.append($m.features)",
+                            "$ap = np.concatenate($pos, axis=0)", "$aq = np.concatenate($quat, axis=0)", "$af = pl.concat($feat, how=$$how)",
+                            "return cls($ap, Rotation($aq), features=$af)"])
         rep.ob("LOCK", f.anchor, "concat collects position, quaternion and features of each input in one loop and concatenates the three lists in that order",
-               ok, "", node=f.node, fn=f, clause="1 lock-step", stmt="def concat")
+               ok, why, node=f.node, fn=f, clause="1 lock-step", stmt="def concat")
     for name in ("concat_with", "append"):
         f = funcs.get(MC + name)
         if f is None:
@@ -188,14 +189,22 @@ def guards_clause(model, rep, funcs):
     if f is not None:
         s = norm_src(f.node)
         rep.instance("GUARD", f.loc())
-        ok = "nmol != len(rot)" in s and "_pos.shape[1] != 3" in s and s.count("raise") >= 3 and "self.features = features" in s
+        M = Matcher(f)
+        b = {}
+        ok = M.all_of(["$p = np.atleast_2d(pos).astype($$t)", "if $p.shape[1] != 3:\n    raise $$e", "$n = $p.shape[0]", "self._pos = $p", "self._rotator = rot",
+                       "self.features = features"], b)[0] and (M.has("$n > 0 and $n != len(rot)", b) or M.has("$n != len(rot)", b)) and s.count("raise") >= 3
         rep.ob("GUARD", f.anchor, "the constructor rejects (N,3)-violating positions and rotation-count mismatch and routes features through the validating setter",
                ok, "", node=f.node, fn=f, clause="3 guards", stmt="def __init__ guards")
     f = funcs.get(MC + "to_dataframe")
     if f is not None:
-        first = f.node.body[1] if isinstance(f.node.body[0], ast.Expr) else f.node.body[0]
         rep.instance("GUARD", f.loc())
-        ok = isinstance(first, ast.If) and "intersection(_CSV_COLUMNS)" in norm_src(first.test) and any(isinstance(x, ast.Raise) for x in ast.walk(first))
+        cfg = CFG(f.node)
+        builds = [n for n in cfg.nodes if n.kind == "stmt" and any(isinstance(c, ast.Call) and (dotted(c.func) or "").endswith("DataFrame") for c in ast.walk(n.node))]
+
+        def is_dup_guard(c):
+            return c.kind == "test" and "intersection(_CSV_COLUMNS)" in norm_src(c.node.test) and any(isinstance(x, ast.Raise) for st in c.node.body for x in ast.walk(st))
+
+        ok = bool(builds) and all(cfg.must_pass_through(n, is_dup_guard) for n in builds)
         rep.ob("GUARD", f.anchor, "feature names colliding with the coordinate columns are rejected before the table is built", ok, "", node=f.node, fn=f,
                clause="3 guards", stmt="def to_dataframe guard")
     f = funcs.get(MC + "from_axes")
@@ -229,7 +238,8 @@ def guards_clause(model, rep, funcs):
             det.append("a guard can still raise after self was partially updated")
         rep.ob("GUARD", f.anchor, "append checks that the combined feature table has one row per combined position before it mutates self", ok, "; ".join(det),
                node=(direct[0].node if direct else f.node), fn=f, clause="3 guards", stmt=("self._features = feat" if direct and not lenguard else "def append guards"))
-        extra = "len(feat.columns) != len(self.features.columns)" in norm_src(f.node) and "raise ValueError" in norm_src(f.node)
+        extra = Matcher(f).all_of(["$feat = pl.concat([self.features, other.features], how='diagonal')",
+                                   "if len($feat.columns) != len(self.features.columns):\n    ...", "self.features = $feat"])[0] and "raise ValueError" in norm_src(f.node)
         rep.ob("GUARD", f.anchor, "append rejects molecules that bring extra feature columns", extra, "", node=f.node, fn=f, clause="3 guards",
                stmt="def append extra columns")
 
